@@ -142,13 +142,102 @@ def configure_optimizer(opt, fit, derived=None, model=None):
         opt.disable_fit(name)
     for f in fit:
         opt.enable_fit(f['name'])
-        opt.set_mode(f['name'], f['mode'])
-        opt.set_prior(f['name'], M.make_prior(f['prior']))
+        apply_fit_entry(opt, f)
     if derived is not None:
         for name, tup in list(opt._model.derivedParameters.items()):
             opt._model.derivedParameters[name] = tup[:3] + (name in derived,)
         for name, tup in list(opt._observed.derivedParameters.items()):
             opt._observed.derivedParameters[name] = tup[:3] + (name in derived,)
+
+
+def apply_fit_entry(opt, f):
+    """Mode, then either a user prior or (set_prior False) bounds from which
+    the optimizer derives its default prior."""
+    opt.set_mode(f['name'], f['mode'])
+    if f.get('set_prior', True):
+        opt.set_prior(f['name'], M.make_prior(f['prior']))
+    else:
+        a = f['prior']['args']
+        opt.set_boundary(f['name'], list(a.get('lin_bounds', a.get('bounds'))))
+
+
+def default_prior_share(rng, fit, p=0.3):
+    """Let a share of the bounded priors be the optimizer's default prior
+    (derived from mode and bounds) instead of a user prior."""
+    for f in fit:
+        k = f['prior']['kind']
+        a = f['prior']['args']
+        if k == 'Uniform' and rng.random() < p:
+            f['set_prior'] = False
+            f['mode'] = 'linear'
+        elif k == 'LogUniform' and 'lin_bounds' in a and rng.random() < p:
+            f['set_prior'] = False
+            f['mode'] = 'log'
+    return fit
+
+
+def mutate_fit(rng, fit, original):
+    """A later configuration of the same retrieval: priors narrowed or
+    replaced, modes flipped, parameters dropped or brought back.  Supports
+    stay inside the previous ones (valid region)."""
+    import copy
+    if rng.random() < 0.15:
+        new = copy.deepcopy(original)
+    else:
+        new = copy.deepcopy(fit)
+    user = {f['name'] for f in fit if f.get('set_prior', True)}
+    if len(new) > 1 and rng.random() < 0.25:
+        del new[rng.randrange(len(new))]
+    have = {f['name'] for f in new}
+    for f in original:
+        if f['name'] not in have and rng.random() < 0.4:
+            new.append(copy.deepcopy(f))
+    for f in new:
+        a = f['prior']['args']
+        k = f['prior']['kind']
+        if rng.random() < 0.6:
+            if k in ('Uniform', 'LogUniform'):
+                key = 'lin_bounds' if 'lin_bounds' in a else 'bounds'
+                lo, hi = a[key]
+                if k == 'LogUniform' and key == 'lin_bounds':
+                    la, lb = math.log10(lo), math.log10(hi)
+                    a[key] = [10 ** (la + (lb - la) * rng.uniform(0, 0.3)),
+                              10 ** (lb - (lb - la) * rng.uniform(0, 0.3))]
+                else:
+                    a[key] = [lo + (hi - lo) * rng.uniform(0, 0.3),
+                              hi - (hi - lo) * rng.uniform(0, 0.3)]
+            elif 'mean' in a:
+                a['mean'] = a['mean'] + a['std'] * rng.uniform(-1, 1)
+                a['std'] = a['std'] * rng.uniform(0.5, 1.0)
+        if f['name'] in user:
+            f['set_prior'] = True       # user priors cannot be withdrawn
+        if not f.get('set_prior', True) and rng.random() < 0.3:
+            # default prior follows the mode: flip both
+            if k == 'Uniform':
+                f['mode'] = 'log'
+                f['prior'] = {'kind': 'LogUniform',
+                              'args': {'lin_bounds': list(a['bounds'])}}
+            elif 'lin_bounds' in a:
+                f['mode'] = 'linear'
+                f['prior'] = {'kind': 'Uniform',
+                              'args': {'bounds': list(a['lin_bounds'])}}
+        elif f.get('set_prior', True) and rng.random() < 0.2:
+            f['mode'] = rng.choice(['linear', 'log'])
+    return new
+
+
+def apply_refit(opt, old, new):
+    """Bring a long-lived optimizer from configuration `old` to `new` with the
+    public mutators (what a user does between two fits)."""
+    newnames = {f['name'] for f in new}
+    oldnames = {f['name'] for f in old}
+    for f in old:
+        if f['name'] not in newnames:
+            opt.disable_fit(f['name'])
+    for f in new:
+        if f['name'] not in oldnames:
+            opt.enable_fit(f['name'])
+        apply_fit_entry(opt, f)
 
 
 def fit_order(model, obs, fit):
